@@ -8,7 +8,7 @@ import numpy as np
 from harness import common as C
 from harness import fd
 
-IMPORTS = ("From FDAV Require Import Base.Num Base.Vec Base.Cmp Model.Basis Model.Pspline Model.LocalPoly Tie.C06.")
+IMPORTS = ("From FDAV Require Import Base.Num Base.Vec Base.Cmp Model.Basis Model.Pspline Model.LocalPoly Gen.Kernels Tie.C06.")
 RULE = ("1-D and 2-D scattered designs (n 8..40 quick / 8..200 thorough, unsorted, with ties), kernels gaussian / epanechnikov / tricube / "
         "bisquare, degree 0..3, bandwidth from a few spacings to the whole range, query points inside the design range, domains [0,1], "
         "day-of-year 1..365, [100,101], [-1,1] and shifted/scaled copies: for every query point the implementation's estimate is checked, "
@@ -111,7 +111,25 @@ def run(rep, props, replay=None):
         if i % 4 == 0:
             case_2d(rep, rng, runq, todo, quick, i)
     kernel_monitor(rep)
+    # the TRANSLATED kernels (Gen/Kernels.v, regenerated from the source text) executed in Q against the running code:
+    # validates the translator itself (what it emits is what the code computes), incl. the support boundary
+    from FDApy.preprocessing.smoothing import local_polynomial as lpmod
+    us = np.concatenate([[0.0, 1.0, -1.0, 0.5, -0.5, 1.0 + 2.0 ** -20, -(1.0 - 2.0 ** -20), 1.5, -3.0],
+                         np.round(rng.uniform(-1.25, 1.25, size=12 if quick else 60) * 1024) / 1024])
+    ktodo = []
+    for name in ("epanechnikov", "tricube", "bisquare"):
+        vals = np.asarray(lpmod._kernel(name)(us.copy()), float)
+        t = runq.add("forallb (fun p => qclose " + C.qlit(1e-15) + f" (gen_kernel_{name} opsQ (fst p)) (snd p)) "
+                     + "[" + "; ".join(f"({C.qlit(u)}, {C.qlit(v)})" for u, v in zip(us, vals)) + "]")
+        ktodo.append((t, name, vals))
     res = runq.run()
+    for t, name, vals in ktodo:
+        rep.case(("translated-kernel", name, us.tobytes()), kind=f"translated-kernel/{name}",
+                 sample={"kernel": name, "n_points": int(len(us))})
+        if not res[t]:
+            rep.disagreements_checked += 1
+            rep.violation(f"translator check: the Gallina translation of the {name} kernel evaluated in Q differs from the running "
+                          f"code on the same arguments", {"kernel": name, "u": C.hexf(us), "values": C.hexf(vals)})
     for t, key, opts, rp in todo:
         rep.case(key, nontrivial=opts["degree"] >= 1, kind=f"{opts['dim']}-D/{opts['kernel']}/deg{opts['degree']}", sample=opts)
         if not res[t]:
